@@ -217,19 +217,19 @@ impl Circle2 {
     ///
     /// ```
     pub fn from_3_points(p0: Point2, p1: Point2, p2: Point2) -> Result<Circle2> {
-        let temp = p1.x.powi(2) + p1.y.powi(2);
-        let bc = (p0.x.powi(2) + p0.y.powi(2) - temp) / 2.0;
-        let cd = (temp - p2.x.powi(2) - p2.y.powi(2)) / 2.0;
-        let det = (p0.x - p1.x) * (p1.y - p2.y) - (p1.x - p2.x) * (p0.y - p1.y);
+        // Work relative to p1, so that neither the collinearity test nor the accuracy of the center
+        // depends on where the points are or on the units of their coordinates
+        let a = p0 - p1;
+        let b = p2 - p1;
+        let det = a.x * b.y - a.y * b.x;
 
-        if det.abs() < 1.0e-6 {
+        // det is |a||b| times the sine of the angle between the two edges
+        if det.abs() <= 1.0e-9 * a.norm() * b.norm() {
             Err("Points are collinear".into())
         } else {
-            let cx = (bc * (p1.y - p2.y) - cd * (p0.y - p1.y)) / det;
-            let cy = ((p0.x - p1.x) * cd - (p1.x - p2.x) * bc) / det;
-
-            let radius = ((cx - p0.x).powi(2) + (cy - p0.y).powi(2)).sqrt();
-            Ok(Self::new(cx, cy, radius))
+            let (aa, bb) = (a.norm_squared(), b.norm_squared());
+            let c = Vector2::new(aa * b.y - bb * a.y, bb * a.x - aa * b.x) / (2.0 * det);
+            Ok(Self::new(p1.x + c.x, p1.y + c.y, c.norm()))
         }
     }
 
